@@ -254,7 +254,7 @@ def fingerprint_native(seed=0, hints=()):
     return dict(reproduced=False)
 
 
-def units(tier, seed):
+def _units_body(tier, seed):
     out = []
     pats = []
     for kexp in PATTERNS['kex']:
@@ -267,6 +267,12 @@ def units(tier, seed):
     out.append(Unit('fingerprints/SHA256-SHA1-MD5', fingerprint_unit(), replay=lambda inputs: fingerprint_native(0), search=fingerprint_native,
                     clause='fingerprints', functions=['SshPublicKeyBase._fingerprint', 'SshPublicKeyBase.fingerprints']))
     return out
+
+
+
+def units(tier, seed):
+    from checks import canary
+    return list(_units_body(tier, seed)) + [canary.hassh_wrong_digest()]
 
 
 FINDING_REPLAYS = {}
